@@ -3,11 +3,12 @@ import Ops.Codec
 import Ops.Transforms
 import Ops.Quant
 import Ops.CornerTable
+import Ops.Metadata
 /- Line-protocol driver of the executable model: one op per line in, one line out. -/
 open Draco
 
 def allOps : List (String × (List String → String)) :=
-  Ops.coreOps ++ Ops.codecOps ++ Ops.transformOps ++ Ops.quantOps ++ Ops.cornerTableOps
+  Ops.coreOps ++ Ops.codecOps ++ Ops.transformOps ++ Ops.quantOps ++ Ops.cornerTableOps ++ Ops.metadataOps
 
 def dispatch (line : String) : String :=
   match (line.trimAscii.toString.splitOn " ").filter (· ≠ "") with
